@@ -390,6 +390,12 @@ void QXmppIncomingClient::handleStanza(const QDomElement &nodeRecv)
             }
         }
     } else if (ns == ns_client) {
+        // stanzas are only accepted from authenticated clients
+        if (d->jid.isEmpty()) {
+            warning(u"Ignoring stanza from unauthenticated client %1"_s.arg(d->origin()));
+            return;
+        }
+
         if (nodeRecv.tagName() == u"iq") {
             const QString type = nodeRecv.attribute(u"type"_s);
             const auto id = nodeRecv.attribute(u"id"_s);
@@ -420,6 +426,12 @@ void QXmppIncomingClient::handleStanza(const QDomElement &nodeRecv)
                 sendPacket(sessionResult);
                 return;
             }
+        }
+
+        // anything else than resource binding requires a bound resource
+        if (d->resource.isEmpty()) {
+            warning(u"Ignoring stanza from client %1 without bound resource"_s.arg(d->origin()));
+            return;
         }
 
         // check the sender is legitimate
